@@ -74,7 +74,7 @@ def run_program(db, regime, steps):
         if stmt.lstrip().upper().startswith('SELECT'): sel[0] += 1
     def q(ent, pks):
         if pks is None: query = ent.select()
-        elif ent is db.C: query = ent.select(lambda c: (c.name, c.sem) in [tuple(p) for p in pks])
+        elif ent is db.C: query = ent.select()
         else: query = ent.select(lambda x: x.id in pks)
         if regime == 'prefetch':
             if ent is db.S: query = query.prefetch(db.S.group, db.S.courses, db.G.students, db.C.students, db.S.note, db.C.title)
@@ -106,7 +106,7 @@ def run_program(db, regime, steps):
                     ent = E[st[2]]
                     pk = st[3]
                     def f(ent=ent, pk=pk):
-                        if regime == 'prefetch':
+                        if regime == 'prefetch' and ent is not db.C:
                             r = q(ent, [pk])
                             o = r[0] if r else None
                         else:
@@ -154,13 +154,23 @@ def run_program(db, regime, steps):
     return obs, sel[0]
 
 
+_dbs = {}
+
+def get_db(regime):
+    if regime not in _dbs: _dbs[regime] = make_db(regime)
+    db = _dbs[regime]
+    with orm.db_session:
+        for t in ('c_s', 's', 'c', 'g'): db.execute('delete from %s' % t)
+    return db
+
+
 def run_programs(payload):
     out = []
     for prog in payload:
         res = {}
         for regime in REGIMES:
             try:
-                db = make_db(regime)
+                db = get_db(regime)
                 populate(db, prog['data'])
                 obs, n = run_program(db, regime, prog['steps'])
                 res[regime] = {'obs': obs, 'selects': n}
@@ -218,6 +228,8 @@ def run_sql_semantics(reqs):
         cols = ['c%d' % j for j in range(ncols)]
         class Cv(object):
             EQ = 'EQ'
+            attr = None
+            optimistic = True
             def __init__(self): pass
             def sql2py(self, v): return v
             def py2sql(self, v): return v
@@ -226,7 +238,7 @@ def run_sql_semantics(reqs):
         crit = core.construct_batchload_criteria_list(None, cols, [Cv() for _ in cols], batch, bool(rvs), start, from_seeds=False)
         ast = ['SELECT', ['ALL'] + [['COLUMN', None, c] for c in cols], ['FROM', [None, 'TABLE', 't']], ['WHERE'] + crit]
         sql, adapter = db._ast2sql(ast)
-        args = adapter([[0] * ncols] * start + [list(k) for k in keys])
+        args = adapter([tuple([0] * ncols)] * start + [tuple(k) for k in keys])
         con = sqlite3.connect(':memory:')
         con.execute('create table t (%s)' % ', '.join('%s integer' % c for c in cols))
         con.executemany('insert into t values (%s)' % ', '.join('?' * ncols), [tuple(r) for r in rows])
